@@ -467,6 +467,10 @@ def run(ctx) -> None:
     ctx.rule("C15.R9-scope-per-component", "components are visited in the order of a SET of identifiers (hash-seed dependent); that is harmless only "
              "while nothing is carried from one component to the next: the substitution scope that receives a component's variables in "
              "FlowIRConcrete.instance is created inside the loop over the components (shared rule with C04.R12)")
+    ctx.rule("C15.R12-queries-do-not-write-the-description", "the graph builders resolve components while iterating a SET of identifiers; the "
+             "resolved configurations are the same in every process only if resolving one component writes nothing into the description the "
+             "next one is resolved from (effect analysis of FlowIRConcrete shared with C08: a write without invalidation, or a getter that "
+             "hands out stored state which the resolver then interpolates in place)")
     ctx.rule("C15.R11-loads-do-not-write-into-their-arguments", "configurationForExperiment mutates a dictionary / list parameter only when every reaching "
              "definition of the name at that point is a copy made by the function itself (dict(..), list(..), a literal, a value not derived from "
              "the parameter)")
@@ -747,3 +751,21 @@ def run(ctx) -> None:
                    "registered as env0 and env1, and a component's command.environment changes with the key order of the document"
                    % (kf, q, short(unsorted[0][1], 40)), construct="%s.%s enumerates its argument in sorted order" % (q, kf))
     ctx.floor("C15.R7-identity-keys-are-canonical", n_keys, 1, "helpers of dsl.py whose result keys a mapping")
+
+    # ---------------- R12: queries are pure (the C08 effect analysis re-used) ------------------------------
+    from checks import c08
+    from vlib.report import Ctx as _Ctx
+    sub_ctx = _Ctx("C08", ctx.tier, ctx.repo)
+    c08.run(sub_ctx)
+    n12 = 0
+    for o in sub_ctx.obligations:
+        if o["rule"] in ("C08.R1-write-invalidate", "C08.R2-alias-handout", "C08.R3-private-values"):
+            o2 = dict(o)
+            o2["rule"] = "C15.R12-queries-do-not-write-the-description"
+            o2["what"] = "[%s] %s" % (o["rule"], o["what"]) + ("" if o["ok"] else
+                          " - with components resolved in set order, whichever component comes first under the process's hash seed leaves its "
+                          "values in the shared description and the others inherit them")
+            ctx.obligations.append(o2)
+            n12 += 1
+    ctx.functions_analysed |= sub_ctx.functions_analysed
+    ctx.floor("C15.R12-queries-do-not-write-the-description", n12, 25, "effect obligations re-used from the C08 analysis")
